@@ -446,6 +446,23 @@ func c17hist(c *Ctx) {
 						fail("routing", "error-device", fmt.Sprintf("custom level %d (error device requested: %v) was routed to %s", int(l), rl.errDev, fmtEvents(e.log.Events())))
 						return
 					}
+					// ... and so is a line that reaches the logger through a std log bridge made for this severity; on a logger at
+					// Warn the line is admitted iff the rule admits the severity there
+					e.log.Reset()
+					slog.NewLogLogger(lg, l).Print("bridged-route-probe")
+					if ws := e.log.Writes(""); len(ws) != 1 || ws[0].W != wantW {
+						fail("routing", "error-device-through-the-bridge", fmt.Sprintf("a line through NewLogLogger(logger, %d) (error device requested: %v) was routed to %s", int(l), rl.errDev, fmtEvents(e.log.Events())))
+						return
+					}
+					lg.SetLevel(slog.WarnLevel)
+					e.log.Reset()
+					slog.NewLogLogger(lg, l).Print("bridged-gate-probe")
+					is.SetDebugMode(false)
+					if got, want := len(e.log.Writes("")) > 0, admit(slog.WarnLevel, l, false, treat); got != want {
+						fail("gating", "treat-as-through-the-bridge", fmt.Sprintf("logger level warn, a line through NewLogLogger(logger, %d) (treated as %v): emitted=%v, rule says %v", int(l), rl.treatAs, got, want))
+						return
+					}
+					lg.SetLevel(slog.AlwaysLevel)
 					// the tag printed in a colored record is the level's short tag of the configured width
 					clg := slog.New("tag").Root()
 					clg.SetWriter(e.w1).SetErrorWriter(e.w1).SetLevel(slog.AlwaysLevel).SetColorMode(true)
